@@ -137,6 +137,8 @@ def dispatch (j : Json) : Except String Res := do
   | "accessor" => accessorOp j
   | "hextoansi" => hexOp j
   | "f64sem" => f64semOp j
+  | "fetchsame" => fetchSameOp j
+  | "par" => parOp j
   | "config" => configOp j
   | "hook" => hookOp j
   | "media" => mediaOp j
